@@ -33,6 +33,8 @@ type Obligation struct {
 	Pos  string `json:"pos,omitempty"`
 	OK   bool   `json:"ok"`
 	Note string `json:"note,omitempty"`
+	// Instances counts how many times the rule instance was evaluated (e.g. in how many skeleton functions).
+	Instances int `json:"instances"`
 }
 
 // Known is a line of known_findings.jsonl.
@@ -64,6 +66,7 @@ type Run struct {
 	Trusted    []string
 	Floors     map[string]int // rule -> minimal number of instances
 	extraNotes []string
+	Replay     string // replay file to highlight
 }
 
 func NewRun(property, tier, level, root string) *Run {
@@ -91,12 +94,35 @@ func (r *Run) Check(rule, key, pos string, ok bool, msg string) bool {
 		r.obl[id] = o
 		r.oblOrder = append(r.oblOrder, id)
 	}
+	o.Instances++
 	if !ok {
 		o.OK = false
 		o.Note = msg
 		r.Violate(Violation{Rule: rule, Key: rule + ":" + key, Pos: pos, Msg: msg, Kind: "violation"})
 	}
 	return ok
+}
+
+// Fail records a failed obligation with a fully specified violation.
+func (r *Run) Fail(rule, key, pos string, v Violation) {
+	id := rule + "\x00" + key
+	o := r.obl[id]
+	if o == nil {
+		o = &Obligation{Rule: rule, Key: key, Pos: pos, OK: true}
+		r.obl[id] = o
+		r.oblOrder = append(r.oblOrder, id)
+	}
+	o.Instances++
+	o.OK = false
+	o.Note = v.Msg
+	v.Rule = rule
+	if v.Key == "" {
+		v.Key = rule + ":" + key
+	}
+	if v.Pos == "" {
+		v.Pos = pos
+	}
+	r.Violate(v)
 }
 
 // Violate records a violation (deduplicated by key; the first report wins).
@@ -222,13 +248,14 @@ func (r *Run) Finish() int {
 		fmt.Printf("VIOLATION property=%s replay=%s\n", r.Property, path)
 	}
 	// evidence
-	nobl, ndis := 0, 0
+	nobl, ndis, nevals := 0, 0, 0
 	ruleCounts := map[string]int{}
 	var samples []any
 	seenRule := map[string]int{}
 	for _, id := range r.oblOrder {
 		o := r.obl[id]
 		nobl++
+		nevals += o.Instances
 		if o.OK {
 			ndis++
 		}
@@ -255,9 +282,9 @@ func (r *Run) Finish() int {
 		"trusted_base":        r.Trusted,
 		"known_findings":      nknown,
 		"exhaustive":          false,
-		"evaluations":         nobl,
+		"evaluations":         nevals,
 		"distinct_nontrivial": nobl,
-		"rule":                "one evaluation per (rule, construct) obligation; obligations are keyed by rule+construct and are therefore distinct; an obligation is non-trivial because it is derived from a construct found in /repo's current source",
+		"rule":                "obligations are rule instances keyed by rule+construct (distinct by construction, each derived from a construct found in /repo's current source or in a skeleton expanded from it); evaluations counts every time an instance was evaluated (for skeleton rules: once per skeleton function it applies to)",
 	}
 	if r.Trusted == nil {
 		cov["trusted_base"] = []string{}
